@@ -125,6 +125,10 @@ func (t *Transformer) buildStructConstructor(structType types.Type, fields []fie
 	var paramNames []string
 	for _, f := range fields {
 		paramName := toLowerCamel(f.name)
+		if token.IsKeyword(paramName) {
+			// e.g. field Type -> parameter type_
+			paramName += "_"
+		}
 		paramNames = append(paramNames, paramName)
 		params = append(params, &ast.Field{
 			Names: []*ast.Ident{ast.NewIdent(paramName)},
